@@ -9,6 +9,7 @@ import TraitsVerif.Lemmas.SeqList
 import TraitsVerif.Lemmas.SeqSlice
 import TraitsVerif.Lemmas.SeqStep
 import Mathlib.Tactic.SplitIfs
+set_option linter.unusedSimpArgs false
 namespace TraitsVerif.Lemmas.PyL
 open TraitsVerif TraitsVerif.Py TraitsVerif.Model TraitsVerif.Model.PyL
 variable {α : Type}
@@ -23,7 +24,7 @@ theorem normalize_idx (E : Env α) (i : Int) (n : Nat) :
     callHelper Generated.listHelpers E "_normalize_slice_or_index" [.int i, .int n]
       = .ok [.bool false, .int (if i < 0 then i + n else i)] := by
   by_cases h : i < 0 <;>
-  simp [callHelper, Generated.listHelpers, lookupFn, exec, eval, bindArgs, truthy, setVar, evalAll, intOp, h] <;>
+  simp [callHelper, Generated.listHelpers, lookupFn, exec, eval, aliasSelf, bindArgs, truthy, setVar, evalAll, intOp, h] <;>
   try omega
 
 theorem normalize_slice (E : Env α) (s : Slice) (n : Nat) :
@@ -35,17 +36,17 @@ theorem normalize_slice (E : Env α) (s : Slice) (n : Nat) :
   unfold normalizeSlice
   cases hi : s.indices n with
   | none =>
-    simp [callHelper, Generated.listHelpers, lookupFn, exec, eval, bindArgs, truthy, hi, hn]
+    simp [callHelper, Generated.listHelpers, lookupFn, exec, eval, aliasSelf, bindArgs, truthy, hi, hn]
   | some t =>
     obtain ⟨a, b, k⟩ := t
     by_cases hk : k < 0
-    · simp [callHelper, Generated.listHelpers, lookupFn, exec, eval, bindArgs, truthy, setVar, setVars, evalAll,
+    · simp [callHelper, Generated.listHelpers, lookupFn, exec, eval, aliasSelf, bindArgs, truthy, setVar, setVars, evalAll,
         intOp, hi, hk, hn, normalizeCore]
       by_cases h1 : -k = 1
       · simp [h1, valOfNIdx]
       · simp [h1]
         split_ifs <;> simp_all [valOfNIdx]
-    · simp [callHelper, Generated.listHelpers, lookupFn, exec, eval, bindArgs, truthy, setVar, setVars, evalAll,
+    · simp [callHelper, Generated.listHelpers, lookupFn, exec, eval, aliasSelf, bindArgs, truthy, setVar, setVars, evalAll,
         intOp, hi, hk, hn, normalizeCore]
       by_cases h1 : k = 1
       · simp [h1, valOfNIdx]
@@ -58,7 +59,7 @@ theorem removed_items_slice (E : Env α) (l : List α) (s : Slice) :
         | .error e => .error e
         | .ok r => .ok [.list r] := by
   cases h : Py.getSlice l s <;>
-  simp [callHelper, Generated.listHelpers, lookupFn, exec, eval, bindArgs, truthy, evalAll, h, Except.map]
+  simp [callHelper, Generated.listHelpers, lookupFn, exec, eval, aliasSelf, bindArgs, truthy, evalAll, h, Except.map]
 
 theorem removed_items_idx (E : Env α) (l : List α) (i : Int) :
     callHelper Generated.listHelpers E "_removed_items" [.list l, .int i, .none]
@@ -66,10 +67,10 @@ theorem removed_items_idx (E : Env α) (l : List α) (i : Int) :
              | none => .none
              | some j => match l[j]? with | some x => .list [x] | none => .none] := by
   cases h : normIdx l.length i with
-  | none => simp [callHelper, Generated.listHelpers, lookupFn, exec, eval, bindArgs, truthy, evalAll, h]
+  | none => simp [callHelper, Generated.listHelpers, lookupFn, exec, eval, aliasSelf, bindArgs, truthy, evalAll, h]
   | some j =>
     cases h2 : l[j]? <;>
-    simp [callHelper, Generated.listHelpers, lookupFn, exec, eval, bindArgs, truthy, evalAll, h, h2]
+    simp [callHelper, Generated.listHelpers, lookupFn, exec, eval, aliasSelf, bindArgs, truthy, evalAll, h, h2]
 
 /-! ### Facts about the builtin list the execution needs -/
 
@@ -136,8 +137,8 @@ theorem imul_length_ge (l : List α) (n : Int) (h : ¬ n < 1) : l.length ≤ (Py
 local notation "runTLM" => runTraitListM Generated.listHelpers Generated.traitListProg
 
 macro "pyl_exec" "[" ts:Lean.Parser.Tactic.simpLemma,* "]" : tactic =>
-  `(tactic| (simp [runTraitListM, Generated.traitListProg, lookupFn, exec, eval, bindArgs,
-      truthy, setVar, setVars, evalAll, intOp, builtinSup, summarize, summaryOfStep, TraitList.step, toNIdx,
+  `(tactic| (simp [runTraitListM, Generated.traitListProg, lookupFn, exec, eval, aliasSelf, bindArgs,
+      truthy, setVar, setVars, evalAll, intOp, builtinSup, summarize, summaryOfStep, TraitList.step, toNIdx, aliasSelf,
       normalize_idx, normalize_slice, removed_items_slice, removed_items_idx, valOfNIdx, $ts,*] <;> try omega))
 
 theorem tl_clear (E : Env α) (l : List α) : runTLM E "clear" [] l = summaryOfStep l (TraitList.step E l .clear) := by
@@ -273,7 +274,7 @@ local notation "runTLOM" =>
   runTraitListObjectM Generated.listHelpers Generated.traitListProg Generated.traitListObjectProg
 
 macro "tlo_exec" "[" ts:Lean.Parser.Tactic.simpLemma,* "]" : tactic =>
-  `(tactic| simp [runTraitListObjectM, Generated.traitListObjectProg, lookupFn, exec, eval, bindArgs,
+  `(tactic| simp [runTraitListObjectM, Generated.traitListObjectProg, lookupFn, exec, eval, aliasSelf, bindArgs,
       truthy, setVar, setVars, evalAll, intOp, summarize, summaryOfStep, TraitListObject.step, guardLen,
       tl_setIdx, tl_setSlice, tl_delIdx, tl_delSlice, tl_append, tl_extend, tl_iadd, tl_imul, tl_insert, tl_pop,
       tl_remove, tl_clear, tl_reverse, tl_sort, $ts,*])
@@ -304,7 +305,7 @@ macro "guard_absurd" : tactic =>
              exact guard_contra (by assumption) (by assumption) (by omega)))
 
 macro "tlo_finish" "[" ts:Lean.Parser.Tactic.simpLemma,* "]" : tactic =>
-  `(tactic| simp_all [runTraitListObjectM, Generated.traitListObjectProg, lookupFn, exec, eval, bindArgs,
+  `(tactic| simp_all [runTraitListObjectM, Generated.traitListObjectProg, lookupFn, exec, eval, aliasSelf, bindArgs,
       truthy, setVar, setVars, evalAll, intOp, summarize, summaryOfStep, TraitListObject.step, guardLen,
       tl_setIdx, tl_setSlice, tl_delIdx, tl_delSlice, tl_append, tl_extend, tl_iadd, tl_imul, tl_insert, tl_pop,
       tl_remove, tl_clear, tl_reverse, tl_sort, $ts,*])
